@@ -204,6 +204,9 @@ type Piece struct {
 	Env    string  `json:"env,omitempty"`
 	Plain  gen.Hex `json:"plain,omitempty"`
 	Damage int     `json:"damage,omitempty"`
+	// Gen > 0: the envelope is made under alice's key generation Gen-1 (0 = the current keys): a value the
+	// application protected before a key rotation.
+	Gen int `json:"gen,omitempty"`
 }
 
 func genPiece(t *rapid.T, label string, maxLen int) Piece {
@@ -220,6 +223,24 @@ func genPiece(t *rapid.T, label string, maxLen int) Piece {
 	return Piece{Raw: gen.Bytes(t, label, maxLen)}
 }
 
+// genAppSide draws the plaintext class "value the application protected itself before it reached Acra" (AcraWriter /
+// AcraTranslator on the application side): ONE whole envelope - bare AcraStruct / AcraBlock or serialized container -
+// spanning the entire input, of the owner (any of its key generations) or of another client, over an inner plaintext
+// of any content class, rarely damaged.
+func genAppSide(t *rapid.T, label string) Piece {
+	who := rapid.SampledFrom([]string{"alice", "alice", "alice", "bobby"}).Draw(t, label+".who")
+	kind := rapid.SampledFrom(fix.Kinds).Draw(t, label+".kind")
+	form := rapid.SampledFrom([]string{fix.FormRaw, fix.FormContainer}).Draw(t, label+".form")
+	p := Piece{Env: who + "/" + kind + "/" + form, Plain: gen.NonEmpty(t, label+".inner", 65536)}
+	if who == "alice" {
+		p.Gen = rapid.IntRange(0, 3).Draw(t, label+".gen")
+	}
+	if rapid.IntRange(0, 7).Draw(t, label+".dmg") == 0 {
+		p.Damage = 1 + rapid.IntRange(0, 400).Draw(t, label+".dmgpos")
+	}
+	return p
+}
+
 // render materialises pieces; decryptable reports whether some piece is an intact envelope that
 // alice can decrypt (then "nothing decryptable around" does not hold by construction).
 func render(w *fix.World, ps []Piece) (out []byte, aliceDecryptable bool, err error) {
@@ -231,7 +252,7 @@ func render(w *fix.World, ps []Piece) (out []byte, aliceDecryptable bool, err er
 		var who, kind, form string
 		parts := bytes.Split([]byte(p.Env), []byte("/"))
 		who, kind, form = string(parts[0]), string(parts[1]), string(parts[2])
-		v, perr := w.Protect([]byte(who), kind, form, p.Plain, -1)
+		v, perr := w.Protect([]byte(who), kind, form, p.Plain, p.Gen-1)
 		if perr != nil {
 			return nil, false, perr
 		}
@@ -270,17 +291,7 @@ func CheckRoundTrip(c RTCase) (vs hx.Vs, nontrivial bool, classes []string) {
 		return
 	}
 	// does the plaintext itself hold (at any offset) an envelope alice can decrypt?
-	nestedAlice := false
-	for i := range x {
-		if _, _, ok := rawAt(w, x[i:]); ok {
-			nestedAlice = true
-			break
-		}
-		if _, pl, _ := containerAt(w, x[i:]); pl != nil {
-			nestedAlice = true
-			break
-		}
-	}
+	nestedAlice := holdsOwnEnvelope(w, x)
 	classes = append(classes, "protector:"+p.Name)
 	var v []byte
 	var perr error
@@ -355,10 +366,16 @@ func CheckRoundTrip(c RTCase) (vs hx.Vs, nontrivial bool, classes []string) {
 				classes = append(classes, "plain:acrastruct-reencrypted-to-acrablock")
 			}
 		}
-		if !okPass && !strings.HasPrefix(p.Name, "lib/") && p.Name != "ReEncrypt/struct->block" {
+		// the library calls are the wrapping primitive itself (no pass-through law); ReEncrypt/struct->block wraps x first
+		lowLevel := strings.HasPrefix(p.Name, "lib/") || p.Name == "ReEncrypt/struct->block"
+		if !okPass && !lowLevel {
 			vs.Add("double-wrap:"+p.Name, "%s wrapped a value that already is a protected value (in %d bytes, out %d bytes)", p.Name, len(x), len(v))
 		}
-		return vs, true, classes // what it reveals to is the inner plaintext, by design
+		if okPass && !lowLevel {
+			// what it reveals to is the inner plaintext, by design
+			classes = append(classes, revealAppSide(w, &vs, c, p, x, v, wholeEnvelope)...)
+		}
+		return vs, true, classes
 	}
 	if perr != nil {
 		vs.Add("protect-error:"+p.Name, "%s failed for a non-empty plaintext of %d bytes: %v", p.Name, len(x), perr)
@@ -407,15 +424,124 @@ func CheckRoundTrip(c RTCase) (vs hx.Vs, nontrivial bool, classes []string) {
 	return
 }
 
+// holdsOwnEnvelope: some offset of b starts an envelope (container or bare) alice can decrypt.
+func holdsOwnEnvelope(w *fix.World, b []byte) bool {
+	for i := range b {
+		if _, _, ok := rawAt(w, b[i:]); ok {
+			return true
+		}
+		if _, pl, _ := containerAt(w, b[i:]); pl != nil {
+			return true
+		}
+	}
+	return false
+}
+
+// revealAppSide is the reveal half of the round trip for a value that was protected BEFORE it reached the protect entry
+// point (x is one whole envelope: the application used AcraWriter / AcraTranslator itself). The entry point stored v:
+// that very envelope, the envelope behind the search hash of a searchable column, or - re-encrypting column - one
+// AcraBlock made from it. "Protected through Acra ... comes back byte-for-byte identical when the same client reveals
+// it": if the owner can open x at all (decided with the library calls alone), every reveal entry point that is meant for
+// the stored form gives the owner the envelope's inner plaintext - not the envelope, not hash || envelope, not an error.
+func revealAppSide(w *fix.World, vs *hx.Vs, c RTCase, p *Protector, x, v []byte, wholeEnvelope func([]byte) string) (classes []string) {
+	var inner []byte
+	owned := false
+	if n, pl, _ := containerAt(w, x); pl != nil && n == len(x) {
+		inner, owned = pl, true
+	} else if n, pl, ok := rawAt(w, x); ok && n == len(x) {
+		inner, owned = pl, true
+	}
+	if !owned {
+		// another client's envelope, or a damaged one that still has the signature: stored as it came, nothing the
+		// owner of the column could reveal
+		return []string{"app-protected:not-the-owners"}
+	}
+	searchProtector := p.Form == fix.FormSearchWrapped || p.Form == fix.FormSearchRaw
+	body, search := v, false
+	if searchProtector && !bytes.Equal(v, x) && len(v) > 33 {
+		body, search = v[33:], true
+	}
+	outKind := wholeEnvelope(body)
+	if outKind == "" {
+		vs.Add("harness:app-protected-stored-form", "%s: stored value of %d bytes accepted as pass-through is not one envelope", p.Name, len(v))
+		return
+	}
+	outForm := fix.FormRaw
+	if bytes.HasPrefix(body, []byte("%%%")) {
+		outForm = fix.FormContainer
+	}
+	if search {
+		if outForm == fix.FormRaw {
+			outForm = fix.FormSearchRaw
+		} else {
+			outForm = fix.FormSearchWrapped
+		}
+	}
+	classes = append(classes, "app-protected:owner-reveals", "app-protected:stored-as/"+outKind+"/"+outForm)
+	if searchProtector {
+		classes = append(classes, "app-protected:searchable-entry")
+	}
+	for _, pc := range c.Plain {
+		if pc.Gen == 1 || pc.Gen == 2 {
+			classes = append(classes, "app-protected:older-key-generation")
+		}
+	}
+	legacyNested := (outForm == fix.FormRaw || outForm == fix.FormSearchRaw) && holdsOwnEnvelope(w, inner)
+	hashNote := ""
+	if search {
+		hashNote = "; stored search hash is NOT the hash of the inner plaintext"
+		if bytes.Equal(v[:33], hmac.GenerateHMAC(w.HmacKey(w.Alice), append([]byte(nil), inner...))) {
+			hashNote = "; stored search hash is the hash of the inner plaintext"
+		}
+	}
+	// one violation per case, named after the protect entry point that stored the value (the reveal entry points are
+	// the ones the ordinary round trip exercises; what is new here is what the protect side made of an envelope)
+	var failed []string
+	for _, r := range w.Reveals(w.Alice, outKind) {
+		if !r.Accepts(outKind, outForm) {
+			continue
+		}
+		var out []byte
+		var rerr error
+		if hx.Guard(vs, r.Name, func() { out, rerr = r.F(append([]byte(nil), v...)) }) {
+			continue
+		}
+		if legacyNested && r.Column && (rerr != nil || !bytes.Equal(out, inner)) {
+			vs.Add("nested-envelope-in-legacy-value:"+r.Name, "%s -> %s: a raw (legacy-form) value whose plaintext itself holds an envelope of the owner is not returned as stored plaintext (%d bytes out, %d expected)", p.Name, r.Name, len(out), len(inner))
+			continue
+		}
+		switch {
+		case rerr != nil:
+			failed = append(failed, fmt.Sprintf("%s: error %v", r.Name, rerr))
+		case bytes.Equal(out, inner):
+		case bytes.Equal(out, v):
+			failed = append(failed, fmt.Sprintf("%s: the stored value unchanged (%d bytes)", r.Name, len(out)))
+		case bytes.Equal(out, x):
+			failed = append(failed, fmt.Sprintf("%s: the envelope (%d bytes)", r.Name, len(out)))
+		default:
+			failed = append(failed, fmt.Sprintf("%s: %d other bytes %.32x", r.Name, len(out), out))
+		}
+	}
+	if len(failed) > 0 {
+		vs.Add("app-protected-not-revealed:"+p.Name, "%s stored an application-side %s of the owner (%d bytes) as %s/%s (%d bytes)%s; the owner wants the %d bytes of inner plaintext %.32x back and gets - %s", p.Name, c.Plain[0].Env, len(x), outKind, outForm, len(v), hashNote, len(inner), inner, strings.Join(failed, " | "))
+	}
+	return classes
+}
+
 func TestRoundTrip(t *testing.T) {
-	R.Rule("TestRoundTrip", "plaintext = 1..3 pieces (G-bytes classes, or whole/damaged envelopes of alice/bobby) protected for alice through one of the protect entry points (library, registry handler, write chain, searchable encryptor, translator x4, re-encryptor) and revealed through every compatible reveal entry point; oracle: byte equality; pass-through for inputs that already are protected values; non-trivial = plaintext >= 12 bytes or containing an envelope tag run")
+	R.Rule("TestRoundTrip", "plaintext = 1..3 pieces (G-bytes classes, or whole/damaged envelopes of alice/bobby) - or, one case in six, ONE whole envelope made on the application side (bare AcraStruct / AcraBlock or serialized container, of alice under any of her key generations or of bobby, inner plaintext from all G-bytes classes up to 64 KiB, rarely damaged) - protected for alice through one of the protect entry points (library, registry handler, write chain plain / searchable / configured from YAML, searchable encryptor, translator x4, re-encryptor) and revealed through every compatible reveal entry point; oracle: byte equality; inputs that already are protected values are passed through (stored as they are, behind the search hash on searchable entry points, or re-encrypted into one AcraBlock) AND, when the owner can open the envelope, the stored value is revealed by every reveal entry point of its stored form (library, handlers, hash-verifying processors, translator, column and search-column chains) to the envelope's inner plaintext; non-trivial = plaintext >= 12 bytes or containing an envelope tag run or being an envelope")
 	hx.Checks(700, 8000)
 	names := protectorNames()
 	rapid.Check(t, func(rt *rapid.T) {
 		c := RTCase{Protector: rapid.SampledFrom(names).Draw(rt, "protector")}
-		n := rapid.IntRange(1, 3).Draw(rt, "pieces")
-		for i := 0; i < n; i++ {
-			c.Plain = append(c.Plain, genPiece(rt, fmt.Sprintf("p%d", i), 65536))
+		if rapid.IntRange(0, 5).Draw(rt, "appside") == 0 {
+			// the value was protected on the application side: one whole envelope is what the entry point receives
+			c.Plain = []Piece{genAppSide(rt, "app")}
+		} else {
+			n := rapid.IntRange(1, 3).Draw(rt, "pieces")
+			for i := 0; i < n; i++ {
+				c.Plain = append(c.Plain, genPiece(rt, fmt.Sprintf("p%d", i), 65536))
+			}
 		}
 		vs, nt, cl := CheckRoundTrip(c)
 		R.Seen("TestRoundTrip", c, nt, cl...)
